@@ -242,7 +242,8 @@ class Translator:
         self.ctx = None
         self.translated = []
         self.skipped = []
-        self.props = {}         # property name -> record projection
+        self.props = {}         # property name -> generated definition
+        self.propfield = {}     # property name -> record projection
         self.group = None
 
     # ------------------------------------------------------------------ helpers
@@ -336,6 +337,7 @@ class Translator:
             name = f"gen_SimEvent_{pn}"
             self.defs.append((self.group, f"{self.header('SimEvent', pn, f)}\nDefinition {name} (p_self : sev) : Z := {proj} p_self."))
             self.props[pn] = name
+            self.propfield[pn] = proj
             self.record("SimEvent", pn, name, f)
 
     # ------------------------------------------------------------------ methods
@@ -409,7 +411,7 @@ class Translator:
         text, rk = self.two_pass(ctx, run)
         name = f"gen_EventListHeap_{mname}"
         binders = "(L : heaplib)" + ("" if mname == "__init__" else " (h : list key)") + "".join(f" (p_{p} : sev)" for p in params)
-        self.defs.append((self.group, f"{self.header('EventListHeap', mname, f)}\nDefinition {name} {binders} : mres {blk(GTYPE[rk])} :=\n{ind(text)}."))
+        self.defs.append((self.group, f"{self.header('EventListHeap', mname, f)}\nDefinition {name} {binders} : mres {GTYPE[rk] if ' ' not in GTYPE[rk] else '(' + GTYPE[rk] + ')'} :=\n{ind(text)}."))
         self.record("EventListHeap", mname, name, f)
         return {"name": name, "ret": rk, "params": params, "mode": "heap"}
 
@@ -450,3 +452,692 @@ class Translator:
         self.defs.append((self.group, f"{self.header('SimEvent', mname, f)}\nDefinition {name} (cv : cvars) (p_cls : pycls) : Z * cvars :=\n{ind(text)}."))
         self.record("SimEvent", mname, name, f)
         return {"name": name, "ret": "Z", "params": [], "mode": "counter"}
+
+    # ------------------------------------------------------------------ SimEvent.__init__ (checked slice)
+    def init_method(self, f):
+        a = f.args
+        if a.vararg or a.kwonlyargs or a.posonlyargs or not a.args or a.args[0].arg != "self":
+            self.fail(f, "SimEvent.__init__: *args / keyword-only / positional-only parameters or no self", "SimEvent")
+        params = [p.arg for p in a.args[1:]]
+        ctx = Ctx("SimEvent", "__init__", f, "init")
+        self.ctx = ctx
+        body = self.body_of(f)
+        prefix = []
+        i = 0
+        while i < len(body):
+            st = body[i]
+            tg = st.targets[0] if isinstance(st, ast.Assign) and len(st.targets) == 1 else (st.target if isinstance(st, ast.AnnAssign) and st.value is not None else None)
+            if tg is None or not (isinstance(tg, ast.Attribute) and isinstance(tg.value, ast.Name) and tg.value.id == "self"):
+                break
+            if self.demangle(tg.attr) == COUNTER:
+                self.fail(st, "assignment to self.__event_counter (an instance attribute shadowing the class counter)")
+            if tg.attr not in FIELDS and not (isinstance(st.value, ast.Name) and st.value.id in params + ([a.kwarg.arg] if a.kwarg else [])):
+                break
+            prefix.append(st)
+            i += 1
+        rest = body[i:]
+        for st in rest:
+            for n in ast.walk(st):
+                bad = None
+                if isinstance(n, ast.Attribute) and (n.attr in GUARDED_ATTRS or self.demangle(n.attr) in GUARDED_ATTRS):
+                    bad = f"attribute .{n.attr}"
+                elif isinstance(n, ast.Name) and (n.id in REFLECTIVE or n.id == "SimEvent"):
+                    bad = f"name `{n.id}`"
+                elif isinstance(n, ast.Constant) and isinstance(n.value, str) and \
+                        any(g in n.value for g in set(FIELDS) | {"event_counter", "__dict__"}):
+                    bad = f"string {n.value!r}"
+                elif isinstance(n, (ast.Return, ast.Delete)):
+                    bad = type(n).__name__
+                if bad:
+                    self.fail(n, f"SimEvent.__init__: {bad} after the leading block of attribute assignments "
+                                 "(only that block is translated; the rest may not touch the modelled attributes or the counter)")
+        if rest:
+            self.skipped.append({"class": "SimEvent", "method": "__init__", "lines": [rest[0].lineno, rest[-1].end_lineno],
+                                 "why": "argument validation after the attribute assignments; checked not to mention the ordering "
+                                        "attributes, the counter, SimEvent or a reflective builtin"})
+        used = []
+
+        def run():
+            env = Env()
+            env.cv = "cv"
+            env.locals["self"] = V("SelfNew", "self")
+            for p in params:
+                env.locals[p] = V("Param", "p_" + p)
+
+            def step(k, env):
+                if k == len(prefix):
+                    missing = [a_ for a_ in FIELDS if a_ not in env.fields]
+                    if missing:
+                        self.fail(f, f"SimEvent.__init__ does not assign {missing} in its leading block of assignments")
+                    return f"(mkSev {env.fields['_absolute_time']} {env.fields['_priority']} {env.fields['_id']}, {env.cv})"
+                st = prefix[k]
+                tg = st.targets[0] if isinstance(st, ast.Assign) else st.target
+                if tg.attr not in FIELDS:
+                    return step(k + 1, env)
+
+                def store(v, e2):
+                    if v.kind == "Param":
+                        if v.tx not in used:
+                            used.append(v.tx)
+                        v = V("Z", v.tx)
+                    if v.kind != "Z":
+                        self.fail(st, f"self.{tg.attr} is assigned a value of kind {v.kind} (the model has ints)")
+                    e3 = e2.clone()
+                    nm = ctx.fresh("f" + tg.attr)
+                    e3.fields[tg.attr] = nm
+                    return f"let {nm} := {self.ztext(v)} in\n{step(k + 1, e3)}"
+                return self.expr(st.value, env, store)
+            return step(0, env)
+        text = run()
+        ctx.counter = {}
+        used.clear()
+        text = run()
+        order = [p for p in params if "p_" + p in used]
+        name = "gen_SimEvent___init__"
+        binders = "(cv : cvars) (self_cls : pycls)" + "".join(f" (p_{p} : Z)" for p in order)
+        self.defs.append((self.group, f"{self.header('SimEvent', '__init__', f)}\n(* slice: the attribute assignments of lines {prefix[0].lineno if prefix else f.lineno}-"
+                                      f"{prefix[-1].end_lineno if prefix else f.lineno}; answers the new event's ordering attributes and the class variables *)\n"
+                                      f"Definition {name} {binders} : sev * cvars :=\n{ind(text)}."))
+        self.record("SimEvent", "__init__", name, f, note="slice: leading attribute assignments only")
+        return {"name": name, "ret": "sev", "params": order, "mode": "init"}
+
+    @staticmethod
+    def demangle(attr):
+        return attr[len("_SimEvent"):] if attr.startswith("_SimEvent__") else attr
+
+    # ------------------------------------------------------------------ statements
+    def block(self, stmts, env, k):
+        if not stmts:
+            return k(env)
+        return self.stmt(stmts[0], env, lambda e2: self.block(stmts[1:], e2, k))
+
+    def stmt(self, s, env, k):
+        if isinstance(s, ast.Pass):
+            return k(env)
+        if isinstance(s, ast.Return):
+            if s.value is None:
+                return self.ret(s, V("None"), env)
+            return self.expr(s.value, env, lambda v, e2: self.ret(s, v, e2))
+        if isinstance(s, (ast.Assign, ast.AnnAssign)):
+            if isinstance(s, ast.Assign) and len(s.targets) != 1:
+                self.fail(s, "multiple assignment targets")
+            tg = s.targets[0] if isinstance(s, ast.Assign) else s.target
+            if s.value is None:
+                self.fail(s, "annotation without a value")
+            return self.assign(s, tg, s.value, env, k)
+        if isinstance(s, ast.AugAssign):
+            if not isinstance(s.op, (ast.Add, ast.Sub)):
+                self.fail(s, f"augmented assignment with {type(s.op).__name__}")
+            load = ast.copy_location(ast.Attribute(value=s.target.value, attr=s.target.attr, ctx=ast.Load()), s.target) \
+                if isinstance(s.target, ast.Attribute) else None
+            if load is None:
+                self.fail(s, f"augmented assignment to {type(s.target).__name__}")
+            return self.assign(s, s.target, ast.copy_location(ast.BinOp(left=load, op=s.op, right=s.value), s), env, k)
+        if isinstance(s, ast.If):
+            return self.cond(s.test, env, lambda e1: self.block(s.body, e1, k), lambda e1: self.block(s.orelse, e1, k))
+        if isinstance(s, ast.Expr):
+            if isinstance(s.value, ast.Call):
+                return self.expr(s.value, env, lambda v, e2: k(e2))
+            if isinstance(s.value, ast.Constant):
+                return k(env)
+            self.fail(s, f"expression statement {type(s.value).__name__}")
+        self.fail(s, f"statement {type(s).__name__}")
+
+    def assign(self, node, tg, value, env, k):
+        mode = self.ctx.mode
+        if isinstance(tg, ast.Attribute):
+            if mode == "heap" and isinstance(tg.value, ast.Name) and tg.value.id == "self" and tg.attr == LIST_ATTR:
+                ok = (isinstance(value, ast.List) and not value.elts) or \
+                     (isinstance(value, ast.Call) and isinstance(value.func, ast.Name) and value.func.id == "list" and not value.args and not value.keywords)
+                if not ok:
+                    self.fail(node, f"self.{LIST_ATTR} is assigned something else than an empty list")
+                e2 = env.clone()
+                e2.h = "[]"
+                return k(e2)
+            if mode == "counter" and self.demangle(tg.attr) == COUNTER:
+                c = self.class_expr(tg.value, env, write=True)
+                if c is None:
+                    self.fail(node, f"assignment to `{ast.unparse(tg)}`: not the counter of a class")
+
+                def store(v, e2):
+                    if v.kind != "Z":
+                        self.fail(node, f"the counter is assigned a value of kind {v.kind}")
+                    e3 = e2.clone()
+                    e3.cv = self.ctx.fresh("cv")
+                    return f"let {e3.cv} := cv_set {e2.cv} {c} {self.ztext(v)} in\n{k(e3)}"
+                return self.expr(value, env, store)
+            self.fail(node, f"assignment to `{ast.unparse(tg)}`")
+        if isinstance(tg, ast.Name):
+            if tg.id in ("self", "cls") or (tg.id in env.locals and env.locals[tg.id].tx == "p_" + tg.id):
+                self.fail(node, f"assignment to the parameter `{tg.id}`")
+
+            def bind(v, e2):
+                if v.kind not in ("Z", "B", "Nat", "Key", "KEv", "Ev"):
+                    self.fail(node, f"a value of kind {v.kind} assigned to a local")
+                e3 = e2.clone()
+                if v.const is not None or v.tx.isidentifier():
+                    e3.locals[tg.id] = v
+                    return k(e3)
+                nm = self.ctx.fresh("v_" + tg.id)
+                e3.locals[tg.id] = V(v.kind, nm)
+                return f"let {nm} := {v.tx} in\n{k(e3)}"
+            return self.expr(value, env, bind)
+        self.fail(node, f"assignment target {type(tg).__name__}")
+
+    def ret(self, node, v, env):
+        ctx = self.ctx
+        ctx.rets.append(v.kind)
+        rk = ctx.retkind
+        if rk is None:
+            return "?"
+        if rk == "unit" and v.kind == "None":
+            val = "tt"
+        elif rk == "bool" and v.kind == "B":
+            val = v.tx
+        elif rk == "nat" and v.kind == "Nat":
+            val = self.ntext(v)
+        elif rk == "Z" and v.kind == "Z":
+            val = self.ztext(v)
+        elif rk == "optkey" and v.kind in ("None", "KEv", "Ev"):
+            val = "None" if v.kind == "None" else (f"(Some {v.tx})" if v.kind == "KEv" else f"(Some (sev_key {v.tx}))")
+        else:
+            self.fail(node, f"return of a value of kind {v.kind} in a method answering {rk}")
+        if ctx.mode == "pure":
+            return val
+        if ctx.mode == "counter":
+            return f"({val}, {env.cv})"
+        if env.h is None:
+            self.fail(node, f"return before self.{LIST_ATTR} is assigned")
+        return f"MOk {env.h} {val}"
+
+    def raise_(self, exn, env):
+        if self.ctx.mode != "heap":
+            self.fail(self.ctx.node, f"an operation that can raise {exn} outside EventListHeap")
+        return f"MRaise {exn} {env.h}"
+
+    def effect(self, node):
+        if self.ctx.nobind:
+            self.fail(node, "an operand of and / or / a chained comparison / a conditional expression that needs a bind (call, indexing)")
+
+    # ------------------------------------------------------------------ texts
+    def ztext(self, v):
+        return zlit(v.const) if v.const is not None else v.tx
+
+    def ntext(self, v):
+        return str(v.const) if v.const is not None else v.tx
+
+    def truth(self, node, v):
+        if v.kind == "B":
+            return v.tx
+        if v.kind == "Nat":
+            return f"(negb (Nat.eqb {self.ntext(v)} 0))"
+        if v.kind == "Z":
+            return f"(negb ({self.ztext(v)} =? 0)%Z)"
+        if v.kind == "List":
+            return f"(match {v.tx} with [] => false | _ :: _ => true end)"
+        self.fail(node, f"truth value of a value of kind {v.kind}")
+
+    # ------------------------------------------------------------------ expressions (CPS: k(value, env))
+    def is_list(self, e):
+        return self.ctx.mode == "heap" and isinstance(e, ast.Attribute) and isinstance(e.value, ast.Name) \
+            and e.value.id == "self" and e.attr == LIST_ATTR
+
+    def need_list(self, node, env):
+        if env.h is None:
+            self.fail(node, f"self.{LIST_ATTR} used before it is assigned")
+        return env.h
+
+    def class_expr(self, e, env, write=False):
+        """Gallina text of the class an expression denotes, or None"""
+        if isinstance(e, ast.Name):
+            if e.id == "SimEvent" and "SimEvent" not in env.locals:
+                return "ClsSimEvent"
+            v = env.locals.get(e.id)
+            if v is not None and v.kind == "Cls":
+                return v.tx
+            if v is not None and v.kind == "SelfNew" and not write:
+                return "self_cls"            # attribute lookup on an instance goes to its class
+            return None
+        if isinstance(e, ast.Call) and isinstance(e.func, ast.Name) and e.func.id == "type" and len(e.args) == 1 and not e.keywords:
+            v = env.locals.get(e.args[0].id) if isinstance(e.args[0], ast.Name) else None
+            return "self_cls" if v is not None and v.kind == "SelfNew" else None
+        if isinstance(e, ast.Attribute) and e.attr == "__class__" and isinstance(e.value, ast.Name):
+            v = env.locals.get(e.value.id)
+            return "self_cls" if v is not None and v.kind == "SelfNew" else None
+        return None
+
+    def pure_sub(self, e, env):
+        """translate an operand that may not need a bind"""
+        box = []
+        self.ctx.nobind += 1
+        try:
+            self.expr(e, env, lambda v, e2: (box.append(v), "")[1])
+        finally:
+            self.ctx.nobind -= 1
+        if len(box) != 1:
+            self.fail(e, "operand that does not yield exactly one value")
+        return box[0]
+
+    def expr(self, e, env, k):
+        mode = self.ctx.mode
+        if isinstance(e, ast.Constant):
+            c = e.value
+            if c is None:
+                return k(V("None"), env)
+            if isinstance(c, bool):
+                return k(V("B", "true" if c else "false"), env)
+            if isinstance(c, int):
+                return k(V("Z", const=c), env)
+            self.fail(e, f"literal {c!r}")
+        if isinstance(e, ast.Name):
+            if e.id in env.locals:
+                return k(env.locals[e.id], env)
+            self.fail(e, f"name `{e.id}` (not a parameter or a local assigned before on every path)")
+        if isinstance(e, ast.Attribute):
+            if self.is_list(e):
+                return k(V("List", self.need_list(e, env)), env)
+            if mode in ("counter", "init") and self.demangle(e.attr) == COUNTER:
+                c = self.class_expr(e.value, env)
+                if c is None:
+                    self.fail(e, f"`{ast.unparse(e)}`: not the counter of a class")
+                return k(V("Z", f"(cv_get {env.cv} {c})"), env)
+
+            def attr(v, e2):
+                if v.kind == "KEv":
+                    v = V("Ev", f"(key_sev {v.tx})")
+                if v.kind != "Ev":
+                    self.fail(e, f"attribute .{e.attr} of a value of kind {v.kind}")
+                if e.attr in FIELDS:
+                    return k(V("Z", f"({FIELDS[e.attr]} {v.tx})"), e2)
+                if e.attr in self.props:
+                    return k(V("Z", f"({self.props[e.attr]} {v.tx})"), e2)
+                self.fail(e, f"attribute .{e.attr} of an event (not an ordering attribute or a translated property)")
+            return self.expr(e.value, env, attr)
+        if isinstance(e, ast.UnaryOp):
+            if isinstance(e.op, ast.Not):
+                return self.expr(e.operand, env, lambda v, e2: k(V("B", f"(negb {self.truth(e, v)})"), e2))
+            if isinstance(e.op, (ast.USub, ast.UAdd)):
+                neg = isinstance(e.op, ast.USub)
+
+                def un(v, e2):
+                    if v.kind != "Z":
+                        self.fail(e, f"unary {'-' if neg else '+'} on a value of kind {v.kind}")
+                    if not neg:
+                        return k(v, e2)
+                    return k(V("Z", const=-v.const) if v.const is not None else V("Z", f"(- {v.tx})%Z"), e2)
+                return self.expr(e.operand, env, un)
+            self.fail(e, f"unary operator {type(e.op).__name__}")
+        if isinstance(e, ast.BinOp):
+            op = {ast.Add: "+", ast.Sub: "-", ast.Mult: "*"}.get(type(e.op))
+            if op is None:
+                self.fail(e, f"binary operator {type(e.op).__name__}")
+
+            def bin_(a, e2):
+                def bin2(b, e3):
+                    if a.kind != "Z" or b.kind != "Z":
+                        self.fail(e, f"`{op}` on values of kinds {a.kind}, {b.kind}")
+                    if a.const is not None and b.const is not None:
+                        return k(V("Z", const={"+": a.const + b.const, "-": a.const - b.const, "*": a.const * b.const}[op]), e3)
+                    return k(V("Z", f"({self.ztext(a)} {op} {self.ztext(b)})%Z"), e3)
+                return self.expr(e.right, e2, bin2)
+            return self.expr(e.left, env, bin_)
+        if isinstance(e, ast.BoolOp):
+            vs = [self.pure_sub(x, env) for x in e.values]
+            if any(v.kind != "B" for v in vs):
+                self.fail(e, "and / or of values that are not bools")
+            op = "&&" if isinstance(e.op, ast.And) else "||"
+            tx = vs[0].tx
+            for v in vs[1:]:
+                tx = f"({tx} {op} {v.tx})"
+            return k(V("B", tx), env)
+        if isinstance(e, ast.IfExp):
+            c, a, b = self.pure_sub(e.test, env), self.pure_sub(e.body, env), self.pure_sub(e.orelse, env)
+            if a.kind != b.kind or a.kind not in ("Z", "B", "Nat"):
+                self.fail(e, f"conditional expression over kinds {a.kind}, {b.kind}")
+            tx = {"Z": self.ztext, "Nat": self.ntext, "B": lambda v: v.tx}[a.kind]
+            return k(V(a.kind, f"(if {self.truth(e, c)} then {tx(a)} else {tx(b)})"), env)
+        if isinstance(e, ast.Compare):
+            if len(e.ops) == 1:
+                return self.expr(e.left, env, lambda a, e2: self.expr(e.comparators[0], e2,
+                                                                         lambda b, e3: k(self.compare(e, e.ops[0], a, b, e3), e3)))
+            vs = [self.pure_sub(x, env) for x in [e.left] + list(e.comparators)]
+            parts = [self.compare(e, o, vs[i], vs[i + 1], env).tx for i, o in enumerate(e.ops)]
+            tx = parts[0]
+            for q in parts[1:]:
+                tx = f"({tx} && {q})"
+            return k(V("B", tx), env)
+        if isinstance(e, ast.Tuple):
+            return k(self.entry_tuple(e, env), env)
+        if isinstance(e, ast.Subscript):
+            return self.subscript(e, env, k)
+        if isinstance(e, ast.Call):
+            return self.call(e, env, k)
+        self.fail(e, f"expression {type(e).__name__}")
+
+    def compare(self, node, o, a, b, env):
+        op = {ast.Lt: "<", ast.Gt: ">", ast.LtE: "<=", ast.GtE: ">=", ast.Eq: "==", ast.NotEq: "!="}.get(type(o))
+        if isinstance(o, (ast.In, ast.NotIn)):
+            if a.kind != "Key" or b.kind != "List":
+                self.fail(node, f"`in` between kinds {a.kind} and {b.kind} (only `entry in self.{LIST_ATTR}`)")
+            t = f"(memk {a.tx} {b.tx})"
+            return V("B", t if isinstance(o, ast.In) else f"(negb {t})")
+        if op is None:
+            self.fail(node, f"comparison operator {type(o).__name__}")
+        if a.kind == "Nat" and b.kind == "Z" and b.const is not None and b.const >= 0:
+            b = V("Nat", const=b.const)
+        if b.kind == "Nat" and a.kind == "Z" and a.const is not None and a.const >= 0:
+            a = V("Nat", const=a.const)
+        if a.kind == "Z" and b.kind == "Z":
+            x, y = self.ztext(a), self.ztext(b)
+            return V("B", {"<": f"({x} <? {y})%Z", ">": f"({y} <? {x})%Z", "<=": f"({x} <=? {y})%Z", ">=": f"({y} <=? {x})%Z",
+                           "==": f"({x} =? {y})%Z", "!=": f"(negb ({x} =? {y})%Z)"}[op])
+        if a.kind == "Nat" and b.kind == "Nat":
+            x, y = self.ntext(a), self.ntext(b)
+            return V("B", {"<": f"(Nat.ltb {x} {y})", ">": f"(Nat.ltb {y} {x})", "<=": f"(Nat.leb {x} {y})", ">=": f"(Nat.leb {y} {x})",
+                           "==": f"(Nat.eqb {x} {y})", "!=": f"(negb (Nat.eqb {x} {y}))"}[op])
+        if a.kind == "B" and b.kind == "B" and op in ("==", "!="):
+            t = f"(Bool.eqb {a.tx} {b.tx})"
+            return V("B", t if op == "==" else f"(negb {t})")
+        self.fail(node, f"comparison `{op}` between values of kinds {a.kind} and {b.kind}")
+
+    def entry_tuple(self, e, env):
+        if self.ctx.mode != "heap" or len(e.elts) != 4 or not isinstance(e.elts[3], ast.Name):
+            self.fail(e, "tuple that is not an entry (x, y, z, event)")
+        ev = env.locals.get(e.elts[3].id)
+        if ev is None or ev.kind != "Ev":
+            self.fail(e, "the fourth component of the entry tuple is not an event parameter")
+        seen, parts = set(), []
+        for x in e.elts[:3]:
+            y = x.operand if isinstance(x, ast.UnaryOp) and isinstance(x.op, ast.USub) else x
+            if not (isinstance(y, ast.Attribute) and isinstance(y.value, ast.Name) and y.value.id == e.elts[3].id):
+                self.fail(x, "entry tuple component that is not (minus) an attribute of the event stored in it")
+            v = self.pure_sub(x, env)
+            seen.add(FIELDS.get(y.attr) or self.propfield.get(y.attr))
+            if v.kind != "Z":
+                self.fail(x, f"entry tuple component of kind {v.kind}")
+            parts.append(self.ztext(v))
+        if len(seen) != 3 or None in seen:
+            self.fail(e, "the first three components of the entry tuple are not three different ordering attributes of the event")
+        return V("Key", f"(mkKey {parts[0]} {parts[1]} {parts[2]})")
+
+    def subscript(self, e, env, k):
+        idx = e.slice
+        if isinstance(idx, ast.UnaryOp) and isinstance(idx.op, ast.USub) and isinstance(idx.operand, ast.Constant):
+            self.fail(e, "negative index")
+        if not (isinstance(idx, ast.Constant) and isinstance(idx.value, int) and not isinstance(idx.value, bool)):
+            self.fail(e, "subscript that is not a constant index")
+        i = idx.value
+        if self.is_list(e.value):
+            if i != 0:
+                self.fail(e, f"self.{LIST_ATTR}[{i}] (only the root, index 0, is modelled)")
+            self.effect(e)
+            h = self.need_list(e, env)
+            x = self.ctx.fresh("x")
+            return f"match {h} with\n| {x} :: _ =>\n{ind(k(V('Key', x), env))}\n| [] => {self.raise_('IndexError', env)}\nend"
+
+        def sub(v, e2):
+            if v.kind != "Key":
+                self.fail(e, f"subscript of a value of kind {v.kind}")
+            if i == 3:
+                return k(V("KEv", v.tx), e2)
+            if i in (0, 1, 2):
+                return k(V("Z", f"({['k_time', 'k_nprio', 'k_id'][i]} {v.tx})"), e2)
+            self.fail(e, f"entry[{i}]")
+        return self.expr(e.value, env, sub)
+
+    def cond(self, test, env, kt, kf):
+        def branch(v, e2):
+            return f"if {self.truth(test, v)} then\n{ind(blk(kt(e2)))}\nelse\n{ind(blk(kf(e2)))}"
+        return self.expr(test, env, branch)
+
+    # ------------------------------------------------------------------ calls
+    def call(self, e, env, k):
+        mode = self.ctx.mode
+        f = e.func
+        if e.keywords or any(isinstance(a, ast.Starred) for a in e.args):
+            self.fail(e, "keyword / starred arguments")
+        m = self.mod()
+        # builtins
+        if isinstance(f, ast.Name) and f.id not in env.locals:
+            if f.id == "len" and len(e.args) == 1:
+                def ln(v, e2):
+                    if v.kind != "List":
+                        self.fail(e, f"len() of a value of kind {v.kind}")
+                    return k(V("Nat", f"(length {v.tx})"), e2)
+                return self.expr(e.args[0], env, ln)
+            if f.id == "bool" and len(e.args) == 1:
+                return self.expr(e.args[0], env, lambda v, e2: k(V("B", self.truth(e, v)), e2))
+            self.fail(e, f"call of `{f.id}`")
+        if not isinstance(f, ast.Attribute):
+            self.fail(e, f"call `{ast.unparse(e)[:60]}`")
+        # heapq.*
+        if mode == "heap" and isinstance(f.value, ast.Name) and f.value.id == m.heapq_name and m.heapq_name not in env.locals:
+            if not e.args or not self.is_list(e.args[0]):
+                self.fail(e, f"{m.heapq_name}.{f.attr} on something else than self.{LIST_ATTR}")
+            h = self.need_list(e, env)
+            if f.attr == "heappush" and len(e.args) == 2:
+                def push(v, e2):
+                    if v.kind != "Key":
+                        self.fail(e, f"heappush of a value of kind {v.kind} (entries are (x, y, z, event) tuples)")
+                    self.effect(e)
+                    e3 = e2.clone()
+                    e3.h = self.ctx.fresh("h")
+                    return f"let {e3.h} := hpush L {e2.h} {v.tx} in\n{k(V('None'), e3)}"
+                return self.expr(e.args[1], env, push)
+            if f.attr == "heappop" and len(e.args) == 1:
+                self.effect(e)
+                x, e3 = self.ctx.fresh("x"), env.clone()
+                e3.h = self.ctx.fresh("h")
+                return f"match hpop L {h} with\n| Some ({x}, {e3.h}) =>\n{ind(k(V('Key', x), e3))}\n| None => {self.raise_('IndexError', env)}\nend"
+            if f.attr == "heapify" and len(e.args) == 1:
+                self.effect(e)
+                e3 = env.clone()
+                e3.h = self.ctx.fresh("h")
+                return f"let {e3.h} := hheapify L {h} in\n{k(V('None'), e3)}"
+            self.fail(e, f"{m.heapq_name}.{f.attr} with {len(e.args)} arguments")
+        # methods of the list
+        if self.is_list(f.value):
+            h = self.need_list(e, env)
+            if f.attr == "count" and len(e.args) == 1:
+                def cnt(v, e2):
+                    if v.kind != "Key":
+                        self.fail(e, f"count of a value of kind {v.kind}")
+                    return k(V("Nat", f"(countk {v.tx} {e2.h})"), e2)
+                return self.expr(e.args[0], env, cnt)
+            if f.attr == "remove" and len(e.args) == 1:
+                def rem(v, e2):
+                    if v.kind != "Key":
+                        self.fail(e, f"remove of a value of kind {v.kind}")
+                    self.effect(e)
+                    e3 = e2.clone()
+                    e3.h = self.ctx.fresh("h")
+                    return (f"if memk {v.tx} {e2.h} then\n" + ind(blk(f"let {e3.h} := remove1 {v.tx} {e2.h} in\n{k(V('None'), e3)}"))
+                            + f"\nelse {self.raise_('ValueError', e2)}")
+                return self.expr(e.args[0], env, rem)
+            if f.attr == "clear" and not e.args:
+                self.effect(e)
+                e3 = env.clone()
+                e3.h = "[]"
+                return k(V("None"), e3)
+            self.fail(e, f"list method .{f.attr}() with {len(e.args)} arguments")
+        # classmethod of SimEvent through a class expression
+        if mode in ("counter", "init"):
+            c = self.class_expr(f.value, env)
+            if c is not None:
+                mname = self.demangle(f.attr)
+                sig = self.method("SimEvent", mname, e)
+                if sig["mode"] != "counter" or e.args:
+                    self.fail(e, f"call of SimEvent.{mname} through a class")
+                self.effect(e)
+                r, e3 = self.ctx.fresh("r"), env.clone()
+                e3.cv = self.ctx.fresh("cv")
+                return f"let '({r}, {e3.cv}) := {sig['name']} {env.cv} {c} in\n{k(V('Z', r), e3)}"
+            self.fail(e, f"call `{ast.unparse(e)[:60]}`")
+        # self.m(..) in EventListHeap
+        if mode == "heap" and isinstance(f.value, ast.Name) and f.value.id == "self":
+            sig = self.method("EventListHeap", f.attr, e)
+            if len(e.args) != len(sig["params"]):
+                self.fail(e, f"{f.attr}() called with {len(e.args)} arguments, it has {len(sig['params'])} parameters")
+            if f.attr == "__init__":
+                self.fail(e, "call of __init__")
+
+            def with_args(args, e2):
+                for a in args:
+                    if a.kind != "Ev":
+                        self.fail(e, f"argument of kind {a.kind} passed for an event parameter")
+                self.effect(e)
+                e3 = e2.clone()
+                e3.h = self.ctx.fresh("h")
+                kind = {"unit": "None", "bool": "B", "nat": "Nat", "Z": "Z"}.get(sig["ret"])
+                if kind is None:
+                    self.fail(e, f"value of {f.attr}() (an event or None) used inside another method")
+                x = "_" if kind == "None" else self.ctx.fresh("r")
+                callt = f"{sig['name']} L {self.need_list(e, e2)}" + "".join(" " + a.tx for a in args)
+                return f"mbind ({callt}) (fun {e3.h} {x} =>\n{ind(k(V(kind, None if kind == 'None' else x), e3))})"
+            return self.exprs(e.args, env, with_args)
+        # ev.m(..) in SimEvent
+        if mode == "pure":
+            def recv(v, e2):
+                if v.kind != "Ev":
+                    self.fail(e, f"method call on a value of kind {v.kind}")
+                sig = self.method("SimEvent", self.demangle(f.attr), e)
+                if sig["mode"] != "pure" or len(e.args) != len(sig["params"]):
+                    self.fail(e, f"call of SimEvent.{f.attr} with {len(e.args)} arguments")
+
+                def with_args(args, e3):
+                    for a in args:
+                        if a.kind != "Ev":
+                            self.fail(e, f"argument of kind {a.kind} passed for an event parameter")
+                    return k(V({"bool": "B", "Z": "Z"}[sig["ret"]], f"({sig['name']} {v.tx}" + "".join(" " + a.tx for a in args) + ")"), e3)
+                return self.exprs(e.args, e2, with_args)
+            return self.expr(f.value, env, recv)
+        self.fail(e, f"call `{ast.unparse(e)[:60]}`")
+
+    def exprs(self, es, env, k, acc=()):
+        if not es:
+            return k(list(acc), env)
+        return self.expr(es[0], env, lambda v, e2: self.exprs(es[1:], e2, k, acc + (v,)))
+
+
+GROUPS = ["SimEvent.fields", "SimEvent.order", "SimEvent.create", "EventListHeap"]
+
+
+def translate(keep_going=False):
+    se, el = Module(SE_SRC), Module(EL_SRC)
+    tr = Translator(se, el)
+    failures, failed = [], set()
+
+    def group(name, fn, needs=()):
+        snap = (len(tr.defs), dict(tr.sigs), len(tr.translated), len(tr.skipped))
+        tr.group, tr.ctx, tr.stack = name, None, []
+        try:
+            for n in needs:
+                if n in failed:
+                    raise Unsupported(se.path, se.tree, f"{name} is built on {n}, which could not be translated")
+            fn()
+        except Unsupported as exc:
+            if not keep_going:
+                raise
+            del tr.defs[snap[0]:]
+            tr.sigs = snap[1]
+            del tr.translated[snap[2]:]
+            del tr.skipped[snap[3]:]
+            failed.add(name)
+            failures.append({"group": name, "file": exc.src, "line": exc.lineno, "construct": exc.what, "error": str(exc)})
+
+    def order():
+        for m in CMP_METHODS:
+            tr.method("SimEvent", m)
+
+    def create():
+        tr.method("SimEvent", "__init__")
+
+    def heap():
+        if el.heapq_name is None:
+            raise Unsupported(el.path, el.tree, "`import heapq` not found")
+        tr.klass("EventListHeap", ["EventListInterface"])
+        for m in EL_METHODS:
+            tr.method("EventListHeap", m)
+    group("SimEvent.fields", tr.properties)
+    group("SimEvent.order", order, ["SimEvent.fields"])
+    group("SimEvent.create", create, ["SimEvent.fields"])
+    group("EventListHeap", heap, ["SimEvent.fields"])
+    return tr, failures
+
+
+def render(tr):
+    out = ["(* GENERATED by translator/py2gallina_eventlist.py from src/pydsol/core/simevent.py and eventlist.py -- do not edit.",
+           f"   sha1 of the source files (line ends normalised): simevent.py {tr.se.sha1}",
+           f"                                                    eventlist.py {tr.el.sha1}",
+           "   Shallow embedding of the method bodies over the types of EventList/Key.v and EventList/Model.v; see the",
+           "   translator for the subset and its meaning.  EventList/GenAgree.v proves every definition equal to the",
+           "   hand-written model. *)",
+           "From Coq Require Import ZArith List Bool.",
+           "From PV Require Import EventList.Key EventList.Model.",
+           "Import ListNotations.",
+           PRELUDE]
+    for g in GROUPS:
+        ds = [d for gg, d in tr.defs if gg == g]
+        if ds:
+            out.append(f"(* ==== {g} ==== *)")
+            for d in ds:
+                out.append(d)
+                out.append("")
+    return "\n".join(out) + "\n"
+
+
+def main(argv):
+    out_dir, keep_going, i = None, False, 0
+    while i < len(argv):
+        if argv[i] == "--out" and i + 1 < len(argv):
+            out_dir = Path(argv[i + 1])
+            i += 2
+        elif argv[i] == "--keep-going":
+            keep_going = True
+            i += 1
+        else:
+            print(f"usage: {sys.argv[0]} [--out DIR [--keep-going]]", file=sys.stderr)
+            return 64
+    keep_going = keep_going and out_dir is not None
+    base = {"repo": str(REPO), "sources": [str(SE_SRC), str(EL_SRC)]}
+
+    def report(info):
+        if out_dir is not None:
+            out_dir.mkdir(parents=True, exist_ok=True)
+            (out_dir / "Gen_EventList.json").write_text(json.dumps(info, indent=1) + "\n")
+
+    try:
+        tr, failures = translate(keep_going)
+    except Unsupported as exc:
+        print(f"py2gallina_eventlist: TRANSLATION FAILED\n{exc}", file=sys.stderr)
+        report({**base, "ok": False, "methods": [], "failures": [{"group": None, "file": exc.src, "line": exc.lineno,
+                                                                   "construct": exc.what, "error": str(exc)}]})
+        return 2
+    except (OSError, SyntaxError) as exc:
+        where = f"{getattr(exc, 'filename', None) or CORE}:{getattr(exc, 'lineno', 0) or 0}"
+        msg = f"{where}: unsupported construct: {type(exc).__name__}: {exc}"
+        print(f"py2gallina_eventlist: TRANSLATION FAILED\n{msg}", file=sys.stderr)
+        report({**base, "ok": False, "methods": [], "failures": [{"group": None, "file": where, "line": getattr(exc, "lineno", 0) or 0,
+                                                                   "construct": type(exc).__name__, "error": msg}]})
+        return 2
+    gen = render(tr)
+    target = (out_dir or (VERIF / "coq" / "EventList")) / "Gen_EventList.v"
+    target.parent.mkdir(parents=True, exist_ok=True)
+    if not target.exists() or target.read_text() != gen:
+        target.write_text(gen)
+    h = hashlib.sha1()
+    for r in sorted(tr.translated, key=lambda r: (r["file"], r["lines"][0], r["definition"])):
+        h.update((r["definition"] + ":" + r["sha1"] + "\n").encode())
+    info = {**base, "ok": not failures, "source_sha1": {"simevent.py": tr.se.sha1, "eventlist.py": tr.el.sha1},
+            "translated_text_sha1": h.hexdigest(), "generated_sha1": hashlib.sha1(gen.encode()).hexdigest(),
+            "methods": tr.translated, "skipped": tr.skipped, "failures": failures}
+    report(info)
+    for f in failures:
+        print(f"py2gallina_eventlist: TRANSLATION FAILED (group {f['group']} left out)\n{f['error']}", file=sys.stderr)
+    print(f"py2gallina_eventlist: {len(tr.translated)} definitions from {CORE} -> {target} "
+          f"(translated text sha1 {info['translated_text_sha1'][:12]})")
+    return 2 if failures else 0
+
+
+if __name__ == "__main__":
+    sys.exit(main(sys.argv[1:]))
